@@ -728,7 +728,8 @@ func (h *hintMgr) getCollisionGC(ki *KeyInfo) (it *HintItem, ChunkID int, collis
 	if !collision {
 		// only in mem, in new hints buffers after gc begin
 		it, ChunkID, collision = h.getItemCollision(ki.KeyHash, ki.StringKey)
-	} else {
+	} else if it != nil {
+		// (nil, true): the hash is in the collision table but this key is not
 		ChunkID = it.Pos.ChunkID
 	}
 	return
